@@ -54,7 +54,14 @@ let run mode line =
       | OutOfFuel -> raise (Stop "OUTOFFUEL") in
   let stack_words () = Hashtbl.fold (fun i () acc -> addr i :: acc) stack [] in
   let tls_vals () = Hashtbl.fold (fun _ i acc -> addr i :: acc) tls [] in
-  let roots () = do_step (ERoots (gm_tls (tls_vals ()), stack_words ())) in
+  (* the root sets are handed to the model lazily, before the next event that can collect *)
+  let roots_dirty = ref false in
+  let roots () = roots_dirty := true in
+  let flush_roots () =
+    if !roots_dirty then begin
+      roots_dirty := false;
+      do_step (ERoots (gm_tls (tls_vals ()), stack_words ()))
+    end in
   let store id =
     let nd = Hashtbl.find nodes id in
     if spec then sheap := gm_nset (addr id) (contents nd) !sheap
@@ -113,7 +120,7 @@ let run mode line =
               sheap := gm_nset (addr id) (contents nd) !sheap;
               sreg := gm_nset (addr id) root !sreg;
               sorder := addr id :: !sorder
-            end else do_step (EAlloc (addr id, contents nd, root))
+            end else (flush_roots (); do_step (EAlloc (addr id, contents nd, root)))
           end else store id;
           Hashtbl.replace stack id ();
           roots ()
@@ -126,7 +133,7 @@ let run mode line =
                 sheap := gm_nset (addr id) (contents nd) !sheap;
                 sreg := gm_nset (addr id) false !sreg;
                 sorder := addr id :: !sorder
-              end else do_step (EAlloc (addr id, contents nd, false));
+              end else (flush_roots (); do_step (EAlloc (addr id, contents nd, false)));
               Hashtbl.replace stack id ();
               roots ()
             | _ -> failwith "C")
@@ -167,6 +174,7 @@ let run mode line =
         | 'G' | 'H' ->
           if spec then obs (String.make 1 tok.[0]) (" r=" ^ ids_s (reach ()) ^ must_keep ())
           else begin
+            flush_roots ();
             let m = match gm_mark tr mg !st with
               | Ok m -> m | Crash -> raise (Stop "CRASH") | OutOfFuel -> raise (Stop "OUTOFFUEL") in
             let mk = List.filter (fun i -> gm_marked m (addr i)) (node_ids ()) in
@@ -179,6 +187,7 @@ let run mode line =
           let n = List.hd (ints rest) in
           if spec then obs "M" (" r=" ^ ids_s (reach ()) ^ must_keep ())
           else begin
+            flush_roots ();
             for _ = 1 to n do
               incr garbage;
               do_step (EAlloc (addr !garbage, NoPtr, false))
